@@ -14,7 +14,7 @@ from . import seqlib as S
 PROPERTY = "C04"
 DRIVERS = {"tlo:": "TraitsVerif/Driver/Seq.lean", "nl:": "TraitsVerif/Driver/Nested.lean"}
 PROPS_MODULES = ["TraitsVerif.Props.C04"]
-TRANSLATORS = ["mutators", "lenguard"]
+TRANSLATORS = ["mutators", "lenguard", "pyl"]
 RULE = ("List(T, minlen, maxlen) traits on real HasTraits objects: exhaustive single mutator calls on lists of "
         "length 0..3 for (minlen, maxlen) in a grid, plus seeded random histories (all mutators, whole-value "
         "assignment, valid / coercible / invalid items) compared with the Lean model; a second stream of "
